@@ -32,7 +32,7 @@ META = dict(
          "state, and every recorded trace must be a behaviour of the specification.",
     note="The data-race clause is decided by ThreadSanitizer on free-running runs only (outside the TLA+ family: plain "
          "memory accesses are not yield points of the controlled scheduler, whose schedules are explored under sequential "
-         "consistency at the listed yield points). Tactile-sensor tasks are not exercised. Trusted: TLC, "
+         "consistency at the listed yield points). Trusted: TLC, "
          "shim/sched, harnesses parstep_drv.cc / parfree_drv.cc, the guarded hook in engine_memory.c.",
     ref="DESIGN.md section 4 C02")
 
@@ -56,18 +56,22 @@ def h_tsan():
 
 
 def tsan_reports(err):
-    """ThreadSanitizer stderr -> list of (kind, function of the first frame of the first stack)"""
+    """ThreadSanitizer stderr -> list of (kind, 'f|g'): the innermost functions of the conflicting access stacks,
+    sorted, so that the signature does not depend on which access TSan happened to see second"""
     out = []
     blocks = err.split("WARNING: ThreadSanitizer: ")[1:]
     for b in blocks:
         kind = b.split("(pid", 1)[0].strip()
-        fn = "?"
+        fns, grab = [], False
         for l in b.splitlines():
-            l = l.strip()
-            if l.startswith("#0 "):
-                fn = l.split()[1]
-                break
-        out.append((kind, fn))
+            t = l.strip()
+            if (t.startswith(("Read of", "Write of", "Previous read", "Previous write", "Atomic read", "Atomic write",
+                              "Previous atomic"))):
+                grab = True
+            elif grab and t.startswith("#0 "):
+                fns.append(t.split()[1])
+                grab = False
+        out.append((kind, "|".join(sorted(set(fns))) or "?"))
     return out
 
 
@@ -122,6 +126,13 @@ def models(rng):
                   "body name=eb%d pos=%g,%g,1.25" % (k, x + 0.1, y), "joint body=eb%d type=0" % k,
                   "geom body=eb%d type=4 size=0.3,0.4,0.2" % k]
         out.append(("ellipsoids%d" % npair, m, []))
+    # 5. tactile sensor: 37 x 29 = 1073 taxels (>= 1000, so the taxels are evaluated by pool tasks; no pool size 1..9
+    #    divides 1073), all of them inside a large indenter so that every taxel, the last ones included, reads non-zero
+    m = ["option timestep=0.002 gravity=0,0,0", "mesh name=padm plate=37,29 scale=0.5,0.5,0.5",
+         "body name=pad pos=0,0,1", "geom body=pad name=padg type=2 size=0.8",
+         "body name=ball pos=0,0,3.9", "joint body=ball type=0", "geom body=ball name=ballg type=2 size=3",
+         "sensor name=tac type=46 objtype=10 objname=padm reftype=5 refname=padg"]
+    out.append(("tactile", m, []))
     return out
 
 
@@ -171,7 +182,12 @@ def run(ctx):
                         combos.append((name, m, sets, solver, cone, mode, nth, rng.randrange(1, 10 ** 9)))
     if ctx.quick:
         rng.shuffle(combos)
-        keep = [c for c in combos if not c[0].startswith("ellipsoids")][:80]
+        keep = [c for c in combos if not c[0].startswith("ellipsoids") and c[0] != "tactile"][:80]
+        # the tactile model always runs (taxel batches are split over the pool threads)
+        tac = next(c for c in combos if c[0] == "tactile")
+        for mode in ("step", "inverse"):
+            for nth in (2, 3, 4):
+                keep.append(tac[:3] + (2, 0, mode, nth, tac[7] + nth))
         # the convex-collider models always run, with the larger pools
         ell = [c for c in combos if c[0].startswith("ellipsoids") and c[3] == 2 and c[5] == "step"]
         seen = set()
@@ -242,13 +258,16 @@ def run(ctx):
         traces.append(badt)
         labels.append("control")
         ctrl = len(traces) - 1
-    B = 60
+    B = int(os.environ.get("C02_B", "60"))
     for off in range(0, len(traces), B):
         chunk = traces[off:off + B]
         res, verdicts = tlc.validate_traces(os.path.join(TLA, "ParallelStepTrace.tla"), os.path.join(TLA, "ParallelStepTrace.cfg"),
                                             chunk, timeout=2400)
         ctx.cov["tlc_runs"].append({"name": "ParallelStepTrace[%d]" % off, "generated": res.generated, "distinct": res.distinct,
                                     "wall_s": round(res.wall, 1)})
+        if os.environ.get("C02_DEBUG"):
+            print("chunk", off, "wall", round(res.wall, 1), "distinct", res.distinct, "lens", [len(t) for t in chunk],
+                  [l["model"] if isinstance(l, dict) else l for l in labels[off:off + B]], flush=True)
         ctx.cov["states"] += res.distinct
         ctx.cov["transitions"] += res.generated
         if res.violation and "Invariant" in res.violation:
@@ -292,6 +311,8 @@ def run(ctx):
         if rc != 0 or not reps:
             ctx.violation("free:crash", "free-running pool run of %s died (rc %s)" % (label, rc), {"mode": "free", "input": inp_of(c, 4)})
             continue
+        if c[0] == "tactile" and not any("lasts=1" in r for r in reps):
+            raise Machinery("vacuity: the last taxel of the tactile model reads zero in the reference run")
         bad = [r for r in reps if r[2] != "eq"]
         if bad:
             ctx.violation("free:differs:%s" % bad[0][2], "free-running pool of %d threads: model %s solver %d differs from the "
